@@ -17,6 +17,11 @@ Binding C : spec/PosteriorSession.tla -- the LIFE of one optimizer in a job of n
             behaviour says it belongs to (observation the spectrum is binned to, summarised parameters, one derived
             entry per sample in sample order with the sample's own weight: summaries validated by TLC with binding
             B's operators); the solution reported by the previous fit must stay what it was.
+Form of MultiNest's output : spec/NestOutput.tla -- run configuration (mode separation, importance sampling, file
+            prefix) x number of modes (1 .. two-digit numbers, the constructor allows 100) x source of the per-mode
+            statistics (analyser's per-mode tables / the global tables of <prefix>stats.dat the wrapper parses itself
+            when the analyser reports no modes) x ML sample apart from / among the samples of greatest weight.  TLC
+            exports the scenarios (tag SCN, harness/fx_c09nest.py); binding A's sample sets fill the modes.
 PolyChord : the layout of PolyChord's .stats / clusters files could not be established offline; its summary part
             is not covered (its callbacks are covered by C06).
 """
@@ -33,6 +38,7 @@ import numpy as np
 from ..core import Machinery, frac, close, validate_trace
 from .. import fx_retrieval as fx
 from .. import fx_c09session as ses
+from .. import fx_c09nest as nest
 
 REL = 1e-9
 CENTRES = [1100.0, 1300.0, 1500.0, 1700.0, 1900.0]
@@ -47,7 +53,9 @@ PROFILE_KEYS = ['temp_profile', 'active_mix_profile', 'inactive_mix_profile', 'd
 class World(object):
     """Optimizer over a real transmission model + an oracle twin."""
 
-    def __init__(self, sampler, dims, tmpdir, multimodes=True):
+    def __init__(self, sampler, dims, tmpdir, multimodes=True, ins=False, route='modes', pfx='1-'):
+        """multimodes / ins / pfx: constructor keywords search_multi_modes / importance_sampling / multinest_prefix;
+        route: where the statistics of the run come from (spec/NestOutput.tla: "modes" | "global")."""
         N, M, P = fx.load_optimizers()
         self.sampler = sampler
         self.model = fx.make_transmission('isothermal')
@@ -63,9 +71,16 @@ class World(object):
         if sampler == 'nestle':
             self.opt = N(observed=self.obs, model=self.model, num_live_points=5, sigma_fraction=1.0)
         else:
+            kw = {}
+            if ins:
+                kw['importance_sampling'] = True
+            if pfx != '1-':
+                kw['multinest_prefix'] = pfx
             self.opt = M(multi_nest_path=self.dir, observed=self.obs, model=self.model, num_live_points=5,
-                         sigma_fraction=1.0, search_multi_modes=multimodes)
+                         sigma_fraction=1.0, search_multi_modes=multimodes, **kw)
         self.multimodes = multimodes
+        self.ins, self.route, self.pfx = ins, route, pfx
+        self.cfgkey = (bool(multimodes), bool(ins), route, pfx)
         want = {2: ['T', 'H2O'], 3: ['planet_radius', 'T', 'H2O'], 1: ['T']}[dims]
         for name, par in list(self.model.fittingParameters.items()):
             if par[5] and name not in want:
@@ -80,7 +95,7 @@ class World(object):
         self.opt.compile_params()
         self.names = list(self.opt.fit_names)
         self.payload = None
-        self.basename = os.path.join(self.dir, '1-')
+        self.basename = os.path.join(self.dir, pfx)
 
     # ---- running the sampler double
     def _nestle_hook(self, loglike, prior, ndim, **kw):
@@ -90,8 +105,13 @@ class World(object):
     def _mn_hook(self, call):
         import pymultinest
         modes = self.payload
+        # the files are written where the wrapper told the sampler to write them; it must read those back
         pymultinest.write_outputs(call['outputfiles_basename'], modes, logz=(-20.5, 0.25),
                                   multimodal=call['multimodal'])
+        if self.route == 'global':
+            if len(modes) != 1:
+                raise Machinery('a run without mode separation has one mode')
+            nest.write_global_stats(call['outputfiles_basename'], modes[0], call['importance_nested_sampling'], logz=(-20.5, 0.25))
 
     def run(self, payload, full):
         import pymultinest
@@ -222,21 +242,19 @@ def build_samples(world, vecs):
     return samples, w
 
 
-def mn_modes(samples, weights, rng_seed):
-    """One MultiNest mode holding all samples; loglike arbitrary but distinct; stats: mean = weighted mean,
-    MAP = first sample of greatest weight, sigma distinct per dimension."""
-    n, d = samples.shape
-    ll = [-10.0 - 0.37 * ((i * 7 + rng_seed) % n) for i in range(n)]
-    mean = (weights[:, None] * samples).sum(axis=0) / weights.sum()
-    j = int(np.argmax(weights))
-    return [dict(samples=samples, weights=weights, loglike=ll, mean=list(mean), sigma=[0.1 * (k + 1) for k in range(d)],
-                 maxlike=list(samples[int(np.argmax(ll))]), map=list(samples[j]), logz=(-20.5, 0.25))]
+def mn_modes(samples, weights, rng_seed, apart=True):
+    """One MultiNest mode holding all samples; loglike distinct; stats: mean = weighted mean, MAP = first sample of
+    greatest weight, maximum likelihood = another sample wherever the mode has one of smaller weight (apart), sigma
+    distinct per dimension."""
+    return [nest.mode_dict(samples, weights, apart=apart, k=rng_seed)]
 
 
-def one_case(ctx, world, vecs, full, vector):
+def one_case(ctx, world, vecs, full, vector, apart=True):
     samples, weights = build_samples(world, vecs)
     cls = cls_of(world.sampler, vecs, ':fit' if full else '')
-    payload = (samples, weights) if world.sampler == 'nestle' else mn_modes(samples, weights, len(samples))
+    if world.sampler != 'nestle':
+        cls += ':' + nest.config_tag(world.cfgkey)
+    payload = (samples, weights) if world.sampler == 'nestle' else mn_modes(samples, weights, len(samples), apart=apart)
     try:
         sol = world.run(payload, full)
         got = list(world.opt.get_solution())
@@ -262,7 +280,11 @@ def one_case(ctx, world, vecs, full, vector):
 
 
 def check_full(ctx, world, sol, samples, weights, mapv, med, cls, vector, events=None, key='solution0'):
-    s0 = sol[key]
+    s0 = sol.get(key) if isinstance(sol, dict) else None
+    if not isinstance(s0, dict) or any(k not in s0 for k in ('tracedata', 'weights', 'Spectra', 'Profiles')):
+        ctx.verdict('solution_dict_traces', False, cls=cls, detail='the solution dictionary has no (complete) entry %r: %r' %
+                    (key, sorted(sol) if isinstance(sol, dict) else type(sol)), vector=vector)
+        return
     ok = arr_close(s0['tracedata'], samples, 1e-14) and arr_close(s0['weights'], weights, 1e-14)
     ctx.verdict('solution_dict_traces', ok, cls=cls, detail='solution tracedata/weights differ', vector=vector)
     nat, binned = world.twin_spectrum(mapv)
@@ -290,13 +312,20 @@ def check_full(ctx, world, sol, samples, weights, mapv, med, cls, vector, events
                                       float(rec['sigma_p']), float(rec['mean']), cls + ':derived:' + d, vector))
 
 
-def multimode_case(ctx, world, cases, vector):
-    """Two (or more) MultiNest modes with different sample counts in one output: one solution per mode."""
+def multimode_case(ctx, world, cases, vector, scn=None):
+    """Several MultiNest modes with different sample counts in one output: one solution per mode, numbered as the
+    specification says (scn['yields'] of spec/NestOutput.tla), each holding its own mode's samples and statistics."""
     parts = [build_samples(world, c) for c in cases]
+    apart = scn['apart'] if scn else [True] * len(cases)
+    want = sorted(scn['yields']) if scn else list(range(len(cases)))
     modes = []
     for k, (smp, wts) in enumerate(parts):
-        modes += mn_modes(smp, wts, k + 1)
-    cls = 'multinest:modes=%d:n=%s:fit' % (len(cases), '/'.join(str(len(c[0]['w'])) for c in cases))
+        modes += mn_modes(smp, wts, k + 1, apart=bool(apart[k]))
+    nm = len(cases)
+    cls = 'multinest:modes=%s:n=%s:fit' % (nm if nm < 5 else ('5-10' if nm <= 10 else 'more-than-10'),
+                                            '/'.join(str(len(c[0]['w'])) for c in cases) if nm < 5 else 'mixed')
+    if world.cfgkey[3] != '1-':
+        cls += ':prefix=' + world.cfgkey[3]
     try:
         sol = world.run(modes, True)
         got = []
@@ -305,16 +334,26 @@ def multimode_case(ctx, world, cases, vector):
     except Exception as e:   # noqa
         ctx.verdict('summary_produced', False, cls=cls, detail='fit raised %r' % e, vector=vector)
         return
-    ctx.verdict('one_solution_per_mode', sorted(g[0] for g in got) == list(range(len(cases))), cls=cls,
-                detail='solutions %r for %d modes' % ([g[0] for g in got], len(cases)), vector=vector)
+    keys = sorted((k for k in sol if str(k).startswith('solution')), key=lambda k: (len(k), k)) if isinstance(sol, dict) else None
+    ctx.verdict('one_solution_per_mode', sorted(g[0] for g in got) == want and keys == ['solution%d' % i for i in want], cls=cls,
+                detail='get_solution yields the numbers %r, the solution dictionary has %r, for %d modes (expected numbers %r)' %
+                ([g[0] for g in got], keys, nm, want), vector=vector)
     for idx, opt_map, opt_median, extras in got:
-        if idx >= len(cases):
+        if not isinstance(idx, int) or idx < 0 or idx >= nm:
             continue
         smp, wts = parts[idx]
-        fitp = extras['fit_params']
-        mapv = check_summary(ctx, world, cases[idx], fitp, smp, wts, world.opt.get_samples(idx),
-                             world.opt.get_weights(idx), cls, vector)
-        med = [float(fitp[n]['value']) for n in world.names]
+        fitp = extras.get('fit_params')
+        try:
+            gs, gw = world.opt.get_samples(idx), world.opt.get_weights(idx)
+            mapv = check_summary(ctx, world, cases[idx], fitp, smp, wts, gs, gw, cls, vector)
+            med = [float(fitp[n]['value']) for n in world.names]
+        except (KeyError, IndexError, TypeError, ValueError) as e:
+            ctx.verdict('summary_produced', False, cls=cls, detail='solution %r is not readable: %r' % (idx, e), vector=vector)
+            continue
+        ctx.verdict('map_vector', all(close(a, b, rel=1e-14, abs_=1e-300) for a, b in zip(opt_map, mapv)), cls=cls,
+                    detail='get_solution MAP %r of solution %d vs fit_params %r' % (opt_map, idx, mapv), vector=vector)
+        ctx.verdict('median_vector', all(close(a, b, rel=1e-14, abs_=1e-300) for a, b in zip(opt_median, med)), cls=cls,
+                    detail='get_solution median %r of solution %d vs fit_params %r' % (opt_median, idx, med), vector=vector)
         check_full(ctx, world, sol, smp, wts, mapv, med, cls, dict(vector, w=cases[idx][0]['w']), key='solution%d' % idx)
 
 
@@ -322,15 +361,69 @@ def multimode_case(ctx, world, cases, vector):
 # binding A
 # ----------------------------------------------------------------------------------------------
 
-def run_vectors(ctx, vecs, nfull, rng, nmulti=30):
+class NestWorlds(object):
+    """MultiNest optimizers, one per (fitted dimensions, run configuration of spec/NestOutput.tla), built on demand."""
+
+    def __init__(self, tmpdir):
+        self.tmpdir = tmpdir
+        self.worlds = {}
+
+    def get(self, dims, cfgkey):
+        cfgkey = tuple(cfgkey)
+        if (dims, cfgkey) not in self.worlds:
+            smm, ins, route, pfx = cfgkey
+            self.worlds[(dims, cfgkey)] = World('multinest', dims, self.tmpdir, multimodes=smm, ins=ins, route=route, pfx=pfx)
+        return self.worlds[(dims, cfgkey)]
+
+
+def default_scenarios():
+    """the configurations of the check before spec/NestOutput.tla (used by --replay of old vectors only)"""
+    return [dict(smm=True, ins=False, route='modes', pfx='1-', modes=1, sizes=[2], apart=[True], yields=[0]),
+            dict(smm=False, ins=False, route='modes', pfx='1-', modes=1, sizes=[2], apart=[True], yields=[0])]
+
+
+def pick_mode_counts(scns, nmulti, rng):
+    """mode counts of the multi-modal outputs: always the greatest count of the model and another of more than ten
+    modes (solution numbers of two decimal digits), otherwise mostly 2-4 modes"""
+    counts = sorted({s['modes'] for s in scns if s['modes'] >= 2})
+    if not counts:
+        return []
+    big = [c for c in counts if c > 10]
+    mid = [c for c in counts if 5 <= c <= 10]
+    small = [c for c in counts if c < 5]
+    out = []
+    if big:
+        out.append(max(big))
+        out.append(rng.choice(big))
+    if mid:
+        out.append(rng.choice(mid))
+    while len(out) < nmulti:
+        out.append(rng.choice(small or counts))
+    return out[:max(nmulti, 3)]
+
+
+def run_vectors(ctx, vecs, nfull, rng, nmulti=30, scns=None):
+    given = bool(scns)
+    scns = scns or default_scenarios()
     groups = {}
     for v in vecs:
         groups.setdefault((tuple(v['w']), tuple(v['tot'])), []).append(v)
     tmpdir = tempfile.mkdtemp(prefix='c09_')
     try:
-        worlds = {('nestle', 2): World('nestle', 2, tmpdir), ('nestle', 3): World('nestle', 3, tmpdir),
-                  ('multinest', 2): World('multinest', 2, tmpdir, multimodes=True),
-                  ('multinest', 3): World('multinest', 3, tmpdir, multimodes=False)}
+        worlds = {('nestle', 2): World('nestle', 2, tmpdir), ('nestle', 3): World('nestle', 3, tmpdir)}
+        nworlds = NestWorlds(tmpdir)
+        # runs of ONE mode: every configuration of the specification in turn (mode separation on / off, importance
+        # sampling, statistics from the analyser's per-mode tables / from the global tables, file prefix)
+        single = sorted((s for s in scns if s['modes'] == 1), key=lambda s: json.dumps(s, sort_keys=True))
+        rng.shuffle(single)
+        byconf = {}
+        for sc in single:
+            byconf.setdefault(nest.config_key(sc), []).append(sc)
+        confs = sorted(byconf)
+        if not confs:
+            raise Machinery('the specification exported no single-mode scenario')
+        ctx.note('MultiNest run configurations (search_multi_modes, importance_sampling, statistics, prefix): %s' %
+                 '; '.join(nest.config_tag(c) for c in confs))
         cases = []
         for w, cols in sorted(groups.items()):
             cols = list(cols)
@@ -341,32 +434,45 @@ def run_vectors(ctx, vecs, nfull, rng, nmulti=30):
             for k in range(0, len(cols), dims):
                 cases.append(cols[k:k + dims])
         fullset = set(rng.sample(range(len(cases)), min(nfull, len(cases))))
+        nmn = 0
         for ci, case in enumerate(cases):
             dims = len(case)
             full = ci in fullset
             for sampler in ('nestle', 'multinest'):
                 if sampler == 'multinest' and not full and ci % 3:
                     continue
-                world = worlds[(sampler, dims)]
-                vector = dict(kind='vector', sampler=sampler, cols=case, full=full, w=case[0]['w'])
-                one_case(ctx, world, case, full, vector)
-        # multi-modal MultiNest output: modes of different sample counts
+                if sampler == 'nestle':
+                    world = worlds[(sampler, dims)]
+                    vector = dict(kind='vector', sampler=sampler, cols=case, full=full, w=case[0]['w'])
+                    one_case(ctx, world, case, full, vector)
+                    continue
+                conf = confs[nmn % len(confs)]
+                sc = byconf[conf][(nmn // len(confs)) % len(byconf[conf])]
+                nmn += 1
+                world = nworlds.get(dims, conf)
+                vector = dict(kind='vector', sampler=sampler, cols=case, full=full, w=case[0]['w'], cfg=list(conf),
+                              apart=bool(sc['apart'][0]))
+                one_case(ctx, world, case, full, vector, apart=bool(sc['apart'][0]))
+        # multi-modal MultiNest output: the numbers of modes and the sample count of every mode are the specification's
         two = [c for c in cases if len(c) == 2]
         byn = {}
         for c in two:
             byn.setdefault(len(c[0]['w']), []).append(c)
-        sizes = sorted(byn)
-        nmm = 0
-        for k in range(nmulti):
-            if len(sizes) < 2:
-                break
-            na, nb = rng.sample(sizes, 2)
-            group = [rng.choice(byn[na]), rng.choice(byn[nb])]
-            if k % 3 == 2:
-                group.append(rng.choice(byn[rng.choice(sizes)]))
-            multimode_case(ctx, worlds[('multinest', 2)], group, dict(kind='multimode', sampler='multinest', cases=group))
+        multi = {}
+        for sc in sorted((s for s in scns if s['modes'] >= 2), key=lambda s: json.dumps(s, sort_keys=True)):
+            if all(n in byn for n in sc['sizes']):
+                multi.setdefault(sc['modes'], []).append(sc)
+        nmm, biggest = 0, 0
+        for m in pick_mode_counts([s for ss in multi.values() for s in ss], nmulti, rng):
+            sc = rng.choice(multi[m])
+            group = [rng.choice(byn[n]) for n in sc['sizes']]
+            multimode_case(ctx, nworlds.get(2, nest.config_key(sc)), group,
+                           dict(kind='multimode', sampler='multinest', cases=group, scn=sc), scn=sc)
             nmm += 1
-        ctx.note('%d multi-modal MultiNest outputs' % nmm)
+            biggest = max(biggest, m)
+        if given and nmulti and biggest <= 10 and any(s['modes'] > 10 for s in scns):
+            raise Machinery('no multi-modal output of more than ten modes was exercised')
+        ctx.note('%d multi-modal MultiNest outputs (up to %d modes)' % (nmm, biggest))
         return len(cases)
     finally:
         shutil.rmtree(tmpdir, ignore_errors=True)
@@ -426,23 +532,31 @@ def random_total(rng, w):
     return [rng.randint(1, 200), 8]
 
 
-def run_random(ctx, ncases, rng, events=None):
-    """events: summaries already logged (session fits, harness/fx_c09session.py); validated by the same TLC run."""
+def run_random(ctx, ncases, rng, events=None, scns=None):
+    """events: summaries already logged (session fits, harness/fx_c09session.py); validated by the same TLC run.
+    scns: scenarios of spec/NestOutput.tla (the MultiNest fits alternate between the analyser's per-mode statistics and
+    a run without mode separation whose global statistics the wrapper parses itself)."""
     tmpdir = tempfile.mkdtemp(prefix='c09_')
     events = [] if events is None else events
     try:
         worlds = {2: World('nestle', 2, tmpdir), 3: World('nestle', 3, tmpdir)}
-        mworld = World('multinest', 2, tmpdir, multimodes=True)
+        glob = sorted({nest.config_key(s) for s in (scns or []) if s['route'] == 'global'})
+        mworlds = [World('multinest', 2, tmpdir, multimodes=True)]
+        if glob and ncases:
+            smm, ins, route, pfx = glob[rng.randrange(len(glob))]
+            mworlds.append(World('multinest', 2, tmpdir, multimodes=smm, ins=ins, route=route, pfx=pfx))
         for ci in range(ncases):
             dims = 2 + ci % 2
-            world = worlds[dims] if ci % 4 else mworld
+            world = worlds[dims] if ci % 4 else mworlds[(ci // 4) % len(mworlds)]
             dims = len(world.names)
             cols, w = random_case(rng, dims)
             samples = np.array([[unit_map(n, v) for v in col] for n, col in zip(world.names, cols)]).T.copy()
             tot = random_total(rng, w)
             weights = np.array([float(Fraction(v * tot[0], sum(w) * tot[1])) for v in w], dtype=float)
-            vector = dict(kind='random', seed=ctx.seed, case=ci, w=w, tot=tot, ncases=ncases)
+            vector = dict(kind='random', seed=ctx.seed, case=ci, w=w, tot=tot, ncases=ncases, tier=ctx.tier)
             cls = '%s:random:n=%d:%s' % (world.sampler, len(w), total_tag(tot))
+            if world.sampler != 'nestle' and world.route != 'modes':
+                cls += ':' + nest.config_tag(world.cfgkey)
             payload = (samples, weights) if world.sampler == 'nestle' else mn_modes(samples, weights, ci)
             try:
                 sol = world.run(payload, True)
@@ -833,7 +947,20 @@ def run(ctx):
     if not q:
         res2 = ctx.check_spec('export-small', 'MC_Posterior', 'EX_Posterior_quick.cfg', workers=1)
         vecs += res2.tagged('VEC')
-    n = run_vectors(ctx, vecs, 120 if q else 1500, rng, 30 if q else 300)
+    # the form of MultiNest's output: configurations x number of modes x source of the statistics
+    nres = ctx.check_spec('nest-output', 'NestOutput', 'MC_NestOutput_%s.cfg' % ctx.tier, workers=1,
+                          need_actions=('Run', 'Store', 'Report'))
+    scns = nres.tagged('SCN')
+    if not any(s['modes'] > 10 for s in scns) or not any(s['route'] == 'global' for s in scns):
+        raise Machinery('NestOutput exported no scenario of more than ten modes / of the global-statistics route')
+    ctx.expect_refuted('map-read-from-the-maximum-likelihood-table', 'NestOutput', 'MC_NestOutput_refute_maxlike.cfg',
+                       'MapIsGreatestWeight', workers=1)
+    ctx.expect_refuted('solution-number-read-from-one-digit-of-the-key', 'NestOutput', 'MC_NestOutput_refute_firstdigit.cfg',
+                       'OneSolutionPerMode', workers=1)
+    if not q:
+        ctx.expect_refuted('every-mode-gets-the-statistics-of-the-first', 'NestOutput', 'MC_NestOutput_refute_firstmode.cfg',
+                           'MapIsGreatestWeight', workers=1)
+    n = run_vectors(ctx, vecs, 120 if q else 1500, rng, 30 if q else 300, scns=scns)
     ctx.note('%d exported columns stacked into %d fits' % (len(vecs), n))
     # the life of one optimizer in a job of np processes
     ctx.check_spec('session-exhaustive', 'PosteriorSession', 'MC_PosteriorSession_%s.cfg' % ctx.tier, workers=2)
@@ -847,7 +974,7 @@ def run(ctx):
         ctx.check_spec('session-summary-rule', 'PosteriorSession', 'MC_PosteriorSession_rule.cfg', workers=2)
     events = []
     run_sessions(ctx, random.Random(ctx.seed * 9001 + 11), events)
-    run_random(ctx, 60 if q else 600, random.Random(ctx.seed * 9001 + 10), events)
+    run_random(ctx, 60 if q else 600, random.Random(ctx.seed * 9001 + 10), events, scns=scns)
 
 
 def replay(ctx, violations):
@@ -864,14 +991,17 @@ def replay(ctx, violations):
                     continue
                 seen.add(key)
                 dims = len(vec['cols'])
-                world = World(vec['sampler'], dims, tmpdir, multimodes=(dims == 2))
-                one_case(ctx, world, vec['cols'], vec['full'], vec)
+                smm, ins, route, pfx = vec.get('cfg') or [dims == 2, False, 'modes', '1-']
+                world = World(vec['sampler'], dims, tmpdir, multimodes=smm, ins=ins, route=route, pfx=pfx)
+                one_case(ctx, world, vec['cols'], vec['full'], vec, apart=vec.get('apart', True))
             elif vec.get('kind') == 'multimode':
                 key = repr(vec)
                 if key in seen:
                     continue
                 seen.add(key)
-                multimode_case(ctx, World('multinest', 2, tmpdir, multimodes=True), vec['cases'], vec)
+                sc = vec.get('scn')
+                pfx = sc['pfx'] if sc else '1-'
+                multimode_case(ctx, World('multinest', 2, tmpdir, multimodes=True, pfx=pfx), vec['cases'], vec, scn=sc)
             elif vec.get('kind') == 'session':
                 key = ('session', vec['seed'])
                 if key in seen:
@@ -888,6 +1018,8 @@ def replay(ctx, violations):
                 seen.add(key)
                 ctx.seed = vec['seed']
                 rng = random.Random(ctx.seed * 9001 + 10)
-                run_random(ctx, vec.get('ncases', 60), rng)
+                from ..core import run_tlc
+                scns = run_tlc('NestOutput', 'MC_NestOutput_%s.cfg' % vec.get('tier', 'quick'), workers=1).tagged('SCN')
+                run_random(ctx, vec.get('ncases', 60), rng, scns=scns)
     finally:
         shutil.rmtree(tmpdir, ignore_errors=True)
